@@ -49,7 +49,7 @@ def init(seed):
     S.N = G.Arena("nonce", 1)
     S.A = G.Arena("aad", 18)
     S.T = G.Arena("tag", 1)
-    S.X = G.Arena("aux", 2)
+    S.X = G.Arena("aux", 18)
     S.arenas = [S.IN, S.OUT, S.K, S.N, S.A, S.T, S.X]
     S.ready = True
 
